@@ -269,7 +269,7 @@ def run(chk):
             counts['%s/canonical-rejected' % fname] += 1
             continue
         # the spelling written by compose is one of the variants
-        variants = list(variants) + [('composed', bytes(c[1].compose()).decode('ascii', 'replace')) if show(c)[0] != '<' else ('composed', '')]
+        variants = list(variants) + [('composed', bytes(c[1].compose()).decode('ascii', 'replace')) if not show(c).startswith('<') else ('composed', '')]
         for rule, text in variants:
             counts['%s/%s' % (fname, rule)] += 1
             r = parse(cls, text)
